@@ -232,7 +232,11 @@ def gen_inline(rng, cfg, name, depth):
             fields.append(gen_simple_field(rng, cfg, nm, [], in_inline=True))
     # inline object names are type names in every target: keep them unique per program
     _inline_counter[0] += 1
-    uniq = name + "Grp" + (str(_inline_counter[0]) if cfg.unique_inline else "")
+    if cfg.unique_inline:
+        # type names that every strcase conversion leaves alone
+        uniq = rng.choice(["Item", "Block", "Row", "Part", "Group", "Slot"]) + str(_inline_counter[0])
+    else:
+        uniq = name + "Grp"
     return {"kind": "inline", "name": uniq, "fields": fields, "repeat": cfg.allow_repeat and rng.random() < 0.5}
 
 
